@@ -20,7 +20,8 @@ type c07yParams struct {
 	FT, ST, MR int
 }
 
-var c07yEvents = []string{"req-ok", "req-500", "req-refused(502)", "req-abort", "clock+0.9s(<interval)", "clock+2.1s(>interval,<timeout)", "clock+3.1s(>timeout)"}
+var c07yEvents = []string{"req-ok", "req-500", "req-refused(502)", "req-abort", "clock+0.9s(<interval)", "clock+2.1s(>interval,<timeout)", "clock+3.1s(>timeout)",
+	"req-103-then-500", "req-103-then-ok", "req-garbage(502)", "req-timeout(502)"}
 
 type c07yInst struct {
 	s   *vrt.Sched
@@ -33,7 +34,7 @@ type c07yInst struct {
 func (in *c07yInst) LastOutcome() string { return in.out }
 
 func (in *c07yInst) Step(ev int) *vh.HViol {
-	modes := []string{"ok", "500", "refuse", "abort"}
+	modes := []string{"ok", "500", "refuse", "abort", "", "", "", "103+500", "103+ok", "garbage", "timeout"}
 	switch ev {
 	case 4:
 		in.s.AdvanceQuiet(900 * time.Millisecond)
@@ -75,13 +76,13 @@ func (in *c07yInst) Step(ev int) *vh.HViol {
 	if sent == 0 {
 		return &vh.HViol{Key: "C07/sys/request-not-forwarded/ref-" + in.ref.State, What: fmt.Sprintf("%s: at t=%v the reference breaker (%s) admits the request but no backend was contacted (status %d)", cfg, now, in.ref.State, res.Status)}
 	}
-	in.ref.Done(now, ev == 0)
+	in.ref.Done(now, modes[ev] == "ok" || modes[ev] == "103+ok")
 	return nil
 }
 
 func (in *c07yInst) Fingerprint() string {
 	m := in.ref.Canon(in.s.Clock(), 3200*time.Millisecond)
-	return vh.FingerprintClip(3200*time.Millisecond, in.k.lb.circuitBreaker, in.k.lb.strategy) + fmt.Sprintf("|%+v", m)
+	return vh.FingerprintClip(3200*time.Millisecond, in.k.lb.circuitBreaker, in.k.lb.strategy) + fmt.Sprintf("|%+v", m) + in.k.novel()
 }
 
 func c07ySpec(p c07yParams, depth int) vh.HSpec {
